@@ -67,7 +67,8 @@ def observe(recipe, backend):
     order = STD if backend == "numpy" else COMPLETE
     types = NUMPY_TYPES if backend == "numpy" else [t for t in ALL if str(t) in COMPLETE]
     ts = typeset_for(order)
-    x = build(recipe, backend)
+    container = recipe.get("container", backend)
+    x = build(recipe, container)
     s0 = snap(x)
     pre = backend + ":"
 
@@ -189,6 +190,28 @@ def observe(recipe, backend):
             rc = outcome(lambda: ts.cast_to_inferred(data))
             if rc[0] == "raises" or not (rc[1] is data or same_data(rc[1], data)):
                 add("C04", "recast:%s" % key, "casting already-cast data changed it")
+            # C06 (length, order and element decoding): string encodings decode to exactly the value they spell
+            svals = [v[1] for v in recipe["values"] if v[0] == "str"]
+            if len(svals) == len(recipe["values"]) and svals and str(last) in ("Boolean", "Float", "Integer", "Count", "Complex"):
+                TRUE, FALSE = {"true", "yes", "y"}, {"false", "no", "n"}
+                try:
+                    if str(last) == "Boolean":
+                        want_vals = [True if v.lower() in TRUE else False if v.lower() in FALSE else "?" for v in svals]
+                    elif str(last) in ("Integer", "Count"):
+                        want_vals = [int(float(v)) for v in svals]
+                    elif str(last) == "Float":
+                        want_vals = [float(v) for v in svals]
+                    else:
+                        want_vals = [complex(v) for v in svals]
+                    got_vals = [v.item() if hasattr(v, "item") else v for v in list(data)]
+                    same = len(got_vals) == len(want_vals) and all(
+                        (g == w or (g != g and w != w)) and not (isinstance(w, bool) != isinstance(g, (bool, np.bool_)) and str(last) == "Boolean")
+                        for g, w in zip(got_vals, want_vals))
+                    if "?" not in want_vals and not same:
+                        add("C06", "decode:%s" % last, "strings %s inferred %s but cast to %s, their exact decoding is %s"
+                            % (svals[:4], last, got_vals[:4], want_vals[:4]))
+                except (ValueError, OverflowError):
+                    pass
             try:
                 n_in, n_out = len(x), len(data)
                 if n_in != n_out and not (backend == "numpy" and "Integer" in p and "Float" in p):
@@ -206,7 +229,7 @@ def observe(recipe, backend):
         r2 = dict(recipe)
         r2["values"] = vv
         try:
-            y = build(r2, backend)
+            y = build(r2, container)
         except Exception:
             continue
         if backend == "numpy" and isinstance(x, np.ndarray) and y.dtype != x.dtype:
@@ -223,7 +246,7 @@ def observe(recipe, backend):
     # must be that of the new contents (same as a fresh typeset on an equal fresh container), and when no coercion
     # applies to the new contents the very same object comes back
     if n >= 1:
-        x1 = build(recipe, backend)
+        x1 = build(recipe, container)
         _ = outcome(lambda: ts.infer(x1))
         _ = outcome(lambda: ts.cast_to_inferred(x1))
         edited = True
@@ -347,6 +370,17 @@ def gen(rng, backend):
         if k in ("obj", "objnp") or rng.random() < 0.15:
             r["npdtype"] = "object"
         return r
+    if rng.random() < 0.12:
+        # string encodings with a None mixed in (a relation that tolerates None must land in a type that does)
+        fam = rng.choice(["float", "int", "bool", "complex", "datetime", "url", "path", "ip", "uuid", "email", "geom"])
+        vals = [["str", s_] for s_ in rng.sample(G.STR_POOLS[fam], min(len(G.STR_POOLS[fam]), rng.choice([1, 2, 3])))]
+        vals.insert(rng.randint(0, len(vals)), ["none"])
+        return {"values": vals, "stream": "list:strings+none", "container": rng.choice(["list", "tuple"])}
+    if rng.random() < 0.1:
+        # one spelling of booleans throughout (yes/no, y/n, true/false in any case)
+        t, f = rng.choice([("yes", "no"), ("y", "n"), ("true", "false"), ("YES", "No"), ("Y", "N"), ("True", "FALSE")])
+        vals = [["str", rng.choice([t, f])] for _ in range(rng.choice([1, 2, 3, 5]))]
+        return {"values": vals, "stream": "list:bool-spelling", "container": rng.choice(["list", "tuple"])}
     homog = rng.random() < 0.6
     if homog:
         kk = rng.choice(sorted(set(v[0] for v in LIST_POOL)))
@@ -357,7 +391,7 @@ def gen(rng, backend):
         vals = [rng.choice(pool) for _ in range(n)]
     else:
         vals = [rng.choice(LIST_POOL) for _ in range(n)]
-    return {"values": vals, "stream": "list:" + ("homog" if homog else "mixed")}
+    return {"values": vals, "stream": "list:" + ("homog" if homog else "mixed"), "container": "tuple" if rng.random() < 0.3 else "list"}
 
 
 def _worker(args):
@@ -393,7 +427,11 @@ def run_backend(tier, seed, backend, n=None, nproc=16):
                         {"values": [["str", "nan"]] * 5 + [["str", "1.5"]], "stream": "corpus:nan-strings-then-number"},
                         {"values": [["str", "NaN"]] * 6 + [["str", "2"], ["str", "3"]], "npdtype": "object", "stream": "corpus:nan-strings-then-ints"}],
               "list": [{"values": [["bool", False], ["str", "1.5"]], "stream": "corpus:fixed-F22b"},
-                       {"values": [["none"]], "stream": "corpus:all-none"}, {"values": [["none"], ["none"]], "stream": "corpus:all-none2"},
+                       {"values": [["none"]], "stream": "corpus:all-none"},
+                       {"values": [["str", "yes"], ["str", "no"], ["str", "yes"]], "stream": "corpus:yes-no"},
+                       {"values": [["str", "1.5"], ["none"]], "stream": "corpus:float-string-none"},
+                       {"values": [["str", "a"], ["str", "b"]], "container": "tuple", "stream": "corpus:fixed-F38"},
+                       {"values": [["int", 1], ["int", 2], ["int", 3]], "container": "tuple", "stream": "corpus:int-tuple"}, {"values": [["none"], ["none"]], "stream": "corpus:all-none2"},
                        {"values": [["int", 1], ["none"]], "stream": "corpus:int-none"},
                        {"values": [["float", 0.0], ["float", 0.0], ["float", 0.0]], "stream": "corpus:fixed-F34"},
                        {"values": [["int", 0], ["int", 0]], "stream": "corpus:fixed-F34b"},
